@@ -1,6 +1,6 @@
 """PDO service rules (C12 TPDO, C13 RPDO): gates, inhibit/event discipline, SYNC table separation and
 counting shape, transmission-type tables, RPDO dispatch - by folding and must-facts."""
-from canalyze.ir import walk, strip, const_eval, show, callee_name
+from canalyze.ir import is_pointer, walk, strip, const_eval, show, callee_name
 from canalyze import flow
 from canalyze.peval import PEval
 from rules.p_nmt import _mask_gate, mode_table, MODES, GATE_MODES
@@ -16,7 +16,7 @@ def _run(m, fname, inputs, filt=None, sets=False):
         pe.store_filter = filt
     base = {}
     for prm in m.funcs[fname].params:
-        if (prm[2] or '').rstrip().endswith('*'):
+        if is_pointer(prm[2]):
             base[prm[0]] = 1
     base.update(inputs)
     return pe.run(base)
